@@ -1166,4 +1166,23 @@ theorem forall_kind {p : Kind → Prop} [DecidablePred p] (h : Kind.all.all (fun
   have := List.all_eq_true.mp h k (Kind.mem_all k)
   simpa using this
 
+/-! ### a unary operator with its operand written in any admissible way -/
+
+/-- `op X` where `X` is the operand as it is (when its level allows) or in parentheses (always) parses to the
+    unary node — in particular `op ( e )` is `op` applied to `e` whatever `e` is -/
+theorem parse_un_text {t : Tbl} (wf : t.WF) {op : Tok} {e : Expr} (hu : t.un op.kind = true) (he : e.Ok t)
+    {T : List Tok} (hT : OperandText t e t.ulevel T) {rest : List Tok} (hs : Stops t 0 rest) :
+    parseExprTop t (op :: (T ++ rest)) = some (.un op e, rest) := by
+  have h1 := cost_le_len t e he
+  have h3 := operandText_length hT
+  have hsu : Stops t t.ulevel rest := hs.mono (Nat.zero_le _)
+  have hf : cost e + 5 ≤ fuelFor (op :: (T ++ rest)) := by
+    simp only [fuelFor, List.length_cons, List.length_append]
+    omega
+  obtain ⟨f1, h1'⟩ := fuel_succ (f := fuelFor (op :: (T ++ rest))) (n := 0) (by omega)
+  obtain ⟨f2, h2'⟩ := fuel_succ (f := f1) (n := 0) (by omega)
+  have hin := p3_operandText wf (good wf e he).q2 hT hsu f2 (by omega)
+  simp only [parseExprTop, h1', h2', parseExpr, parsePrefix, hu, ↓reduceIte, hin]
+  exact loop_stops t hs.2 (f2 + 1) (by omega)
+
 end Pyx.Oal
